@@ -80,6 +80,10 @@ def run_suites(ctx, model_ok, deep, plan):
 
 
 def replay(ctx, path):
+    raw = [l.rstrip("\n") for l in open(path) if l.strip()]
+    if "#ecframe" in raw:
+        import ecframe
+        return ecframe.replay(ctx, [l for l in raw if not l.startswith("#")])
     lines = [l.rstrip("\n") for l in open(path) if not l.startswith("#") and l.strip()]
     rc, eo, err = ctx.run_exec(lines, env={"EXEC_MSG": "1"})
     for l, e in zip(lines, eo):
